@@ -1,7 +1,8 @@
 (* C04x -- the hand-off half of C04 / C02 over the COMBINED model Model/MuXferModel.v (Model/MuModel.v = mu.c site by
    site, plus the part of cv.c that works on the mutex: nsync_cv_wait releasing / parking / re-acquiring, nsync_cv_signal /
    broadcast, wake_waiters with the TRANSFER of cv waiters to the mutex queue and its release of the mutex spinlock with
-   clear_on_release).
+   clear_on_release; nsync_wait_n callers on the same cv, with or without the mutex, whose records wake_waiters never
+   transfers -- the `p_w == NULL` branch -- and which make all_readers false).
    "nsync_cv_signal wakes at least one ... a thread that started waiting before a wake-up is issued is covered by it" and
    "no thread stays asleep on a mutex that is free with nobody left who is responsible for waking it", for waiters that
    wake_waiters handed from the cv to the mutex queue: MuProof3's hand-off invariant HInv lifted to the wrapper
@@ -9,8 +10,9 @@
    transferred cv waiter whose flag has been cleared is a designated waker, the semaphore wait of nsync_cv_wait, wake_waiters
    as waker and as a third kind of spinlock owner; MuXferProof6.v: preservation by every step of the wrapper, the theorems
    below; MuXferProof7.v: the result of the wait).
-   For ANY number of threads < 2^24 - 1, ANY programs of lock / rlock / trylock / rtrylock / unlock / cv-wait / signal /
-   broadcast, ANY schedule, ANY choice of timeouts, ANY foreign posts on the semaphores.  Statements only. *)
+   For ANY number of threads < 2^24 - 1, ANY programs of lock / rlock / trylock / rtrylock / unlock / cv-wait /
+   nsync_wait_n (with or without the mutex) / signal / broadcast, ANY schedule, ANY choice of timeouts, ANY foreign posts
+   on the semaphores.  Statements only. *)
 From NsyncBase Require Import CSem.
 From NsyncGen Require Import Consts Sites.
 From NsyncModel Require Import MuModel MuSpec MuXferModel.
@@ -92,11 +94,15 @@ Theorem C05x_transferred_returns_zero : forall progs sched t l,
 Proof. exact x_transferred_returns_zero. Qed.
 
 (* A waiter that nsync_cv_signal / broadcast has chosen (it is on the to_wake_list of a thread inside wake_waiters), and
-   a transferred waiter, is in the state [x_zero]: inside its wait, outcome 0 so far, off the cv queue ... *)
+   a transferred waiter, is in the state [x_zero]: inside its wait, outcome 0 so far, off the cv queue ...  (a member of a
+   to_wake_list is a native waiter -- the second alternative -- or the record of an nsync_wait_n call, whose result is
+   "was still queued" as computed by cv_dequeue, not an outcome) *)
 Theorem C05x_picked_zero : forall progs sched t u,
   Z.of_nat (length progs) < 2 ^ 24 - 1 ->
   let xw := xrun (xinit progs) sched in
-  In t (kws xw u) -> exists l, wl3 (x_pc (xget xw t)) = Some l /\ w_out l = false /\ ~ In t (cvq xw).
+  In t (kws xw u) ->
+  (xn_rec (x_pc (xget xw t)) = true /\ ~ In t (cvq xw)) \/
+  exists l, wl3 (x_pc (xget xw t)) = Some l /\ w_out l = false /\ ~ In t (cvq xw).
 Proof. exact x_picked_zero. Qed.
 
 Theorem C05x_transferred_zero : forall progs sched t l,
@@ -113,7 +119,69 @@ Theorem C05x_zero_until_return : forall sched xw t, x_zero xw t ->
                   x_returns_zero (xrun xw s1) (fst (xstep (xrun xw s1) a)) t.
 Proof. exact xrun_zero. Qed.
 
+(* ---------- nsync_wait_n records on the cv ---------- *)
+(* [nrec xw p]: the record thread p has on the cv is the record of an nsync_wait_n call (flags == 0: wake_waiters' `p_w ==
+   NULL`); such a record is never transferred: its thread is neither on the mutex queue nor on the wake list of a thread
+   inside nsync_mu_unlock_slow_, and it is not a native cv waiter -- so the two waiting flags of a thread (w->nw.waiting of its
+   waiter struct, nw[0].waiting of its nsync_wait_n call), which the model keeps in ONE cell, are never live together. *)
+Theorem C04x_record_kinds : forall progs sched p,
+  Z.of_nat (length progs) < 2 ^ 24 - 1 ->
+  let xw := xrun (xinit progs) sched in
+  nrec xw p = true ->
+  ~ In p (queue (mw xw)) /\ (forall u, ~ In p (wake_of (t_pc (get (mw xw) u)))) /\ wphase (x_pc (xget xw p)) = false /\
+  xaf xw p = false.
+Proof. exact record_kinds. Qed.
+
+(* the cv side of the places invariant: every member of the cv queue or of a to_wake_list has its waiting flag set, is
+   there exactly once, and is a native waiter parked in nsync_cv_wait that has not been transferred, or an nsync_wait_n record *)
+Theorem C04x_cv_members : forall progs sched p,
+  Z.of_nat (length progs) < 2 ^ 24 - 1 ->
+  let xw := xrun (xinit progs) sched in
+  In p (cvq xw) \/ (exists u, In p (kws xw u)) ->
+  waiting (mw xw) p = true /\
+  ((wph2 (x_pc (xget xw p)) = true /\ xferred xw p = false) \/ nrec xw p = true) /\
+  (In p (cvq xw) -> forall u, ~ In p (kws xw u)) /\ (forall u1 u2, In p (kws xw u1) -> In p (kws xw u2) -> u1 = u2).
+Proof. exact cv_members. Qed.
+
+(* wake_waiters computes pmu from its first element once; while it works on *pmu (its first load, its acquiring CAS) that
+   element still is a native waiter, parked, not transferred, flag set: it cannot have left its wait *)
+Theorem C04x_wake_head_native : forall progs sched t k f,
+  Z.of_nat (length progs) < 2 ^ 24 - 1 ->
+  let xw := xrun (xinit progs) sched in
+  x_pc (xget xw t) = XvLoad1 k \/ (exists old, x_pc (xget xw t) = XvCas1 k old) -> hd_error (k_wake k) = Some f ->
+  nrec xw f = false /\ wph2 (x_pc (xget xw f)) = true /\ xferred xw f = false /\ waiting (mw xw) f = true.
+Proof. exact wake_head_native. Qed.
+
 (* ---------- non-vacuity ---------- *)
+(* the F15 shape (finding F15, repaired by 0f631a1): a reader and an nsync_wait_n caller wait; a broadcast under a read lock
+   takes wake_waiters' acquiring CAS 256 -> 262 (MU_SPINLOCK | MU_WAITING set), transfers NOBODY, and its releasing CAS
+   clears MU_WAITING again because the mutex queue is empty (k_clr = MU_SPINLOCK | MU_WAITING); everybody finishes *)
+Example C04x_example_nobody_transferred :
+  let x1 := xrun (xinit f15_progs) f15_s1 in
+  let x2 := xrun x1 f15_s2 in
+  let x3 := xrun x2 f15_s3 in
+  let x4 := xrun x3 f15_s4 in
+  (cvq x1 = [] /\ (exists k old, x_pc (xget x1 2%nat) = XvCas1 k old /\ k_wake k = [0; 1]%nat /\ k_allr k = false) /\
+   nrec x1 0%nat = false /\ nrec x1 1%nat = true /\ holds (mw x1) 2%nat R /\ has (word (mw x1)) MU_WAITING = false) /\
+  (snd (xstep x1 (go 2%nat)) = XMu (EvCas 1002 256 262 true) /\
+   has (word (mw x2)) MU_WAITING = true /\ has (word (mw x2)) MU_SPINLOCK = true /\ queue (mw x2) = [] /\
+   xferred x2 0%nat = false /\ xferred x2 1%nat = false /\
+   exists k, x_pc (xget x2 2%nat) = XvLoad3 k /\ k_wake k = [0; 1]%nat /\ k_clr k = bor MU_SPINLOCK MU_WAITING) /\
+  (has (word (mw x3)) MU_WAITING = false /\ has (word (mw x3)) MU_SPINLOCK = false /\ queue (mw x3) = [] /\ word (mw x3) = 256) /\
+  (forall t, (t < 3)%nat -> x_done x4 t) /\ word (mw x4) = 0 /\ queue (mw x4) = [] /\ cvq x4 = [] /\
+  x_rets (xget x4 0%nat) = [(R, Some R)].
+Proof. exact example_nobody_transferred. Qed.
+
+(* nsync_wait_n WITH the mutex: enqueued while holding it, unlocked, woken by a signal under the lock (its record is first
+   on the list: pmu = NULL, wake_waiters goes straight to the waking loop), dequeued, locked again, logged as held *)
+Example C04x_example_waitn_mutex :
+  let x1 := xrun (xinit wn_progs) wn_s1 in
+  let x2 := xrun x1 wn_s2 in
+  ((exists om, x_pc (xget x1 0%nat) = XnSem om) /\ (exists k, x_pc (xget x1 1%nat) = XvStore k /\ k_wake k = [0%nat]) /\
+   cvq x1 = [] /\ waiting (mw x1) 0%nat = true /\ holds (mw x1) 1%nat W) /\
+  (forall t, (t < 2)%nat -> x_done x2 t) /\ word (mw x2) = 0 /\ x_rets (xget x2 0%nat) = [(W, Some W)].
+Proof. exact example_waitn_mutex. Qed.
+
 (* a BALANCED program (two waiters, one broadcaster inside its critical section, everybody unlocks): after the
    broadcaster's unlock the hypotheses of C04x_handoff_all_states hold (queue = [1], no holder, spinlock free), thread 0 --
    a transferred waiter with its flag cleared and its post pending -- is the waker, and the run goes on to completion *)
@@ -150,5 +218,7 @@ Print Assumptions C04x_no_lost_transfer_full. Print Assumptions C04x_holder_is_r
 Print Assumptions C04x_last_holder_must_scan.
 Print Assumptions C05x_transferred_returns_zero. Print Assumptions C05x_picked_zero. Print Assumptions C05x_transferred_zero.
 Print Assumptions C05x_zero_until_return.
+Print Assumptions C04x_record_kinds. Print Assumptions C04x_cv_members. Print Assumptions C04x_wake_head_native.
+Print Assumptions C04x_example_nobody_transferred. Print Assumptions C04x_example_waitn_mutex.
 Print Assumptions C04x_example_all_states. Print Assumptions C04x_example_quiescent.
 Print Assumptions C05x_example_timeout_after_transfer.
